@@ -279,7 +279,14 @@ func (w *world) execMore(op M) bool {
 		}
 		ec.AddErrorList(list)
 	case "setprop":
-		o := w.owner(opMap(op, "owner"))
+		ref := opMap(op, "owner")
+		if opStr(ref, "kind") == "column" && w.table(opInt(ref, "t")).Column(opInt(ref, "n")) == nil {
+			// the scenario (written against the model) names a column the library does not have: an
+			// observation, not a driver error -- the model decides whether that column must exist
+			w.lastRes = M{"err": 0, "nocolumn": 1}
+			break
+		}
+		o := w.owner(ref)
 		err := o.SetProperty(keyValue(opStr(op, "k")), valValue(opStr(op, "v")))
 		w.lastRes = M{"err": b2i(err != nil)}
 	case "copycell":
